@@ -96,15 +96,20 @@ DIST_PLAN = {'C13': (['Dist_late', 'Dist_live'], ['Dist_share', '!Dist_gap', '!D
              'C12': (['Dist_late'], [])}
 
 
+# property -> configurations of spec/ErrChan.tla (sendError / Errs / Stop / Restart on the error channel); both tiers (seconds).
+# ErrChan_keep is the "keep the most recent error" change (seeded B_C03_2 / D_C07_1): TLC must show the sender that never returns
+ERR_PLAN = {'C07': ['ErrChan_drop', 'ErrChan_noreader', '!ErrChan_keep'], 'C03': ['ErrChan_drop', 'ErrChan_noreader', '!ErrChan_keep']}
+
+
 def run_dist_models(pid, tier, scratch):
     q, t = DIST_PLAN.get(pid, ([], []))
     out = []
-    for name in q + (t if tier == 'thorough' else []):
+    for name in q + (t if tier == 'thorough' else []) + ERR_PLAN.get(pid, []):
         expect_bad = name.startswith('!')
         cfg = name.lstrip('!')
-        r = vlib.run_tlc('MC_dist', os.path.join(SPEC, 'cfg', cfg + '.cfg'), scratch, workers=vlib.NCPU, timeout=900, tag=cfg, heap='8g')
+        r = vlib.run_tlc('ErrChan' if cfg.startswith('ErrChan') else 'MC_dist', os.path.join(SPEC, 'cfg', cfg + '.cfg'), scratch, workers=vlib.NCPU, timeout=900, tag=cfg, heap='8g')
         ok = bool(r.get('violated')) if expect_bad else bool(r.get('ok'))
-        out.append({'config': cfg, 'liveness': cfg.endswith('_live'), 'ok': ok, 'states': r.get('distinct', 0), 'transitions': r.get('generated', 0),
+        out.append({'config': cfg, 'liveness': cfg.endswith('_live') or cfg.startswith('ErrChan'), 'ok': ok, 'states': r.get('distinct', 0), 'transitions': r.get('generated', 0),
                     'depth': r.get('depth', 0), 'seconds': round(r['wall'], 1), 'violated': r.get('violated'), 'expected_violation': expect_bad})
         if not ok:
             log('model %s: %s\n%s' % (cfg, r.get('violated') or 'TLC error', r['out'][-1500:]))
